@@ -12,3 +12,5 @@ func vNondetByte(name string) byte
 func vAssume(c bool)
 func vAssert(c bool, id string)
 func vReach(id string)
+func vNumValue(lit []byte) float64
+func vNumOverflows(lit []byte) bool
